@@ -5,6 +5,7 @@
 (*                                                                                                                *)
 (* Implementation layer (one action per step of the code):                                                        *)
 (*   Enqueue        qm.EnqueueData: Queue.Append (+ segment roll-over) + non-blocking send on rq.receive          *)
+(*   (start-up)     run() makes one sendWrite() pass before its select loop (initial pc = "start", trig "startup")   *)
 (*   Recv/TimerFire the two select cases of run() that call sendWrite()                                           *)
 (*   StartScan      SendWrite: queue.NewScanner (EOF => return (0,false))                                         *)
 (*   ScanNext       scan.Next()                                                                                   *)
@@ -39,15 +40,17 @@ CONSTANTS MaxBatches,   \* batches 1..MaxBatches; the number is the enqueue orde
                         \* run() re-enters with a fresh scanner.  FALSE = as found (finding F38): the scan goes on with
                         \* the old scanner even when the Advance trimmed its segment (lead config Lead_periodic)
           EnqAnywhere,  \* BOOLEAN: see deviation (1)
-          Record        \* BOOLEAN: keep the history variables (generation configs); FALSE in checking configs
+          Record,       \* BOOLEAN: keep the history variables (generation configs); FALSE in checking configs
+          MaxPre        \* batches (0..MaxPre, <= SegCap) already in the queue when run() starts: left there by a shutdown
+                        \* or crash and found by StartReplicationQueues; no receive notification exists for them
 
-VARIABLES cfg,       \* [drop, maxAge, att0]
+VARIABLES cfg,       \* [drop, maxAge, att0, pre]
           segs,      \* durable queue: sequence of segments [blocks, adv, mtime]
           nextB,     \* next batch number
           now,       \* clock (ticks)
           purgeDone, \* the purge ticker case already ran at this clock value
           pc,        \* "idle" | "start" | "next" | "post" | "inflight" | "advance"
-          trig,      \* why the current SendWrite call was made: "recv" | "timer" | "loop"
+          trig,      \* why the current SendWrite call was made: "startup" | "recv" | "timer" | "loop"
           sc,        \* scanner: [pos, dead]; dead = its segment was trimmed under it (closed file)
           cur,       \* batch of the post in flight
           resp,      \* answer the remote gives to the post in flight
@@ -73,6 +76,7 @@ state == <<cfg, segs, nextB, now, purgeDone, pc, trig, sc, cur, resp, failed, ti
 
 Inf == -1
 ASSUME Resps \subseteq AllResps
+ASSUME MaxPre <= SegCap /\ MaxPre <= MaxBatches
 
 \* ------------------------------------------------------------------ queue helpers
 Seg(bs, t) == [blocks |-> bs, adv |-> 0, mtime |-> t]
@@ -106,11 +110,14 @@ Settled     == accSet \cup dropped \cup PurgedIds
 \* ------------------------------------------------------------------ initial state
 NoScan == [pos |-> 0, dead |-> FALSE]
 NoCall == [posts |-> <<>>, dead |-> FALSE]
-Init == /\ cfg \in [drop : Drops, maxAge : MaxAges, att0 : Attempts0]
-        /\ segs = <<Seg(<<>>, 0)>> /\ nextB = 1 /\ now = 0 /\ purgeDone = FALSE
-        /\ pc = "idle" /\ trig = "none" /\ sc = NoScan /\ cur = 0 /\ resp = "none"
+\* run() begins with one sendWrite() pass over the queue (fix 57e0dbc178, finding F65) before it waits for a
+\* notification or the timer: the initial control state is "start" with trigger "startup"; the timer is created with the
+\* result of that pass.  Batches 1..cfg.pre are in the queue already.
+Init == /\ cfg \in [drop : Drops, maxAge : MaxAges, att0 : Attempts0, pre : 0..MaxPre]
+        /\ segs = <<Seg([i \in 1..cfg.pre |-> i], 0)>> /\ nextB = cfg.pre + 1 /\ now = 0 /\ purgeDone = FALSE
+        /\ pc = "start" /\ trig = "startup" /\ sc = NoScan /\ cur = 0 /\ resp = "none"
         /\ failed = cfg.att0 /\ timer = Inf /\ sig = 0
-        /\ nposts = 0 /\ accSet = {} /\ dropped = {} /\ purged = {} /\ enqAt = <<>>
+        /\ nposts = 0 /\ accSet = {} /\ dropped = {} /\ purged = {} /\ enqAt = [i \in 1..cfg.pre |-> 0]
         /\ flags = [post |-> TRUE, acc |-> TRUE, drp |-> TRUE, wait |-> TRUE]
         /\ remote = <<>> /\ accepted = <<>> /\ call = NoCall /\ hist = <<>>
 
@@ -122,7 +129,10 @@ KeepH == UNCHANGED <<remote, accepted, call, hist>>
 \* ------------------------------------------------------------------ environment: local writes
 Enqueue ==
   /\ nextB <= MaxBatches
-  /\ pc \in {"idle", "inflight"} \/ EnqAnywhere
+  /\ \/ pc \in {"idle", "inflight"}
+     \/ pc = "start" /\ trig = "startup"      \* a local write that lands before run() has made its start-up pass: its
+                                              \* notification stays buffered and is consumed after the pass
+     \/ EnqAnywhere
   /\ LET b    == nextB
          tail == segs[Len(segs)]
          segs1 == IF Full(tail)                                   \* segment.append: size > maxSize => ErrSegmentFull
@@ -132,7 +142,7 @@ Enqueue ==
         /\ nextB' = b + 1
         /\ enqAt' = Append(enqAt, now)
         /\ sig' = 1                                               \* non-blocking send, buffer of one
-        /\ IF pc = "idle"
+        /\ IF pc = "idle" \/ (pc = "start" /\ trig = "startup")
            THEN Log([a |-> "enq", b |-> b, exp |-> ObsOf(segs1, failed, timer, 1)]) /\ UNCHANGED call
            ELSE /\ call' = IF Record /\ pc = "inflight"
                            THEN [call EXCEPT !.posts[Len(call.posts)].enq = Append(@, b)]
